@@ -6,9 +6,11 @@ V=${VERIF_ROOT:-/verif}
 mkdir -p $V/build $V/work $V/replay $V/evidence
 ( cd $V/tools/gotrans && go build -o $V/build/gotrans . )
 mkdir -p $V/coq/theories/Gen
-( cd /repo && $V/build/gotrans /repo $V/coq/theories/Gen )
+( cd ${VERIF_REPO:-/repo} && $V/build/gotrans ${VERIF_REPO:-/repo} $V/coq/theories/Gen )
 ( cd $V/coq && coq_makefile -f _CoqProject -o Makefile > /dev/null && timeout 3000 make -j16 > $V/build/coq_make.log 2>&1 ) || { tail -40 $V/build/coq_make.log; exit 1; }
 $V/bin/build_oracles.sh all
-cp /repo/go.sum $V/tools/harness/go.sum
+R=${VERIF_REPO:-/repo}
+cp $R/go.sum $V/tools/harness/go.sum
+printf 'module harness\n\ngo 1.22.1\n\nrequire github.com/teivah/majorana v0.0.0\n\nreplace github.com/teivah/majorana => %s\n' "$R" > $V/tools/harness/go.mod
 ( cd $V/tools/harness && go build -tags verif -o $V/build/harness . )
 echo "setup ok"
